@@ -420,13 +420,13 @@ class MyPyAstVisitor:
                         assignments.append(assignment)
 
             elif isinstance(parent, Enum):
+                # Targets without a name, like subscriptions (x[0] = ...), do not define enum instances
                 names = []
                 if hasattr(lvalue, "items"):
                     for item in lvalue.items:
-                        names.append(item.name)
-                else:
-                    if not hasattr(lvalue, "name"):  # pragma: no cover
-                        raise AttributeError("Expected lvalue to have attribtue 'name'.")
+                        if hasattr(item, "name"):
+                            names.append(item.name)
+                elif hasattr(lvalue, "name"):
                     names.append(lvalue.name)
 
                 for name in names:
@@ -727,10 +727,12 @@ class MyPyAstVisitor:
         unanalyzed_type: mp_types.Type | None,
         is_static: bool = True,
     ) -> list[Attribute]:
-        assert isinstance(lvalue, mp_nodes.NameExpr | mp_nodes.MemberExpr | mp_nodes.TupleExpr)
         attributes: list[Attribute] = []
 
-        if hasattr(lvalue, "name"):
+        if isinstance(lvalue, mp_nodes.StarExpr):
+            lvalue = lvalue.expr
+
+        if isinstance(lvalue, mp_nodes.NameExpr | mp_nodes.MemberExpr):
             if self._is_attribute_already_defined(lvalue.name):
                 return attributes
 
@@ -738,19 +740,11 @@ class MyPyAstVisitor:
                 self._create_attribute(lvalue, unanalyzed_type, is_static),
             )
 
-        elif hasattr(lvalue, "items"):
-            lvalues = list(lvalue.items)
-            for lvalue_ in lvalues:
-                if not hasattr(lvalue_, "name"):  # pragma: no cover
-                    raise AttributeError("Expected value to have attribute 'name'.")
+        elif isinstance(lvalue, mp_nodes.TupleExpr | mp_nodes.ListExpr):
+            for lvalue_ in lvalue.items:
+                attributes.extend(self._parse_attributes(lvalue_, unanalyzed_type, is_static))
 
-                if self._is_attribute_already_defined(lvalue_.name):
-                    continue
-
-                attributes.append(
-                    self._create_attribute(lvalue_, unanalyzed_type, is_static),
-                )
-
+        # Other assignment targets, like subscriptions (x[0] = ...), do not define attributes
         return attributes
 
     def _is_attribute_already_defined(self, value_name: str) -> bool:
